@@ -13,7 +13,7 @@ if __name__ == "__main__":  # the `python -O` child of probe_cases: needs harnes
 from common import bits_str, hex_str, impl_error
 
 PROP = "C04"
-MODULES = ["C04", "C04a", "C04b", "C04c"]
+MODULES = ["C04", "C04a", "C04b", "C04c", "C04p"]
 GEN = ["Codes", "Crc", "Integrity"]
 ANCHORS = [
     "okdmr/dmrlib/etsi/crc",
@@ -62,7 +62,37 @@ def received_check_field_all_zero(f):
     return False
 
 
-MATCHERS = {"received_check_field_all_zero": received_check_field_all_zero}
+def hrnp_burst16_zero_ones(f):
+    """exactly the class Lean C04p.hrnp_burst_iff characterises: an HRNP packet whose received octets differ from the sent ones
+    in ONE window of sixteen consecutive bits, every bit of the window inverted, the window all-zero or all-one as sent, lying in
+    the announced packet and not touching the length octets 8, 9 (nor being the checksum field itself), some other bit set"""
+    inp = f.get("input") or {}
+    if inp.get("pdu") != "hrnp" or f.get("kind") != "corruption-accepted" or "burst" not in inp:
+        return False
+    try:
+        s, r = bytes.fromhex(inp.get("sent")), bytes.fromhex(inp.get("received"))
+    except (TypeError, ValueError):
+        return False
+    if len(s) != len(r) or len(s) < 12:
+        return False
+    plen = int.from_bytes(s[8:10], "big")
+    diff = [i for i in range(len(s) * 8) if (s[i // 8] ^ r[i // 8]) >> (7 - i % 8) & 1]
+    if len(diff) != 16 or diff[-1] - diff[0] != 15:
+        return False
+    lo, hi = diff[0], diff[-1]
+    # anywhere in the announced packet except the two length octets 8, 9 (a changed length is rejected by the cross-check /
+    # the length assertion); a window that overlaps the checksum field is the same residue argument over the whole packet
+    # (sum of all words incl. the field = 0xFFFF) — but the field ITSELF going 0x0000 -> 0xFFFF is detected, never listed
+    if not (hi < 64 or (lo >= 80 and hi < plen * 8)) or (lo, hi) == (80, 95):
+        return False
+    win = [(s[i // 8] >> (7 - i % 8)) & 1 for i in diff]
+    if len(set(win)) != 1:
+        return False
+    covered = [i for i in range(0, plen * 8) if not lo <= i <= hi]
+    return any((s[i // 8] >> (7 - i % 8)) & 1 for i in covered)
+
+
+MATCHERS = {"received_check_field_all_zero": received_check_field_all_zero, "hrnp_burst16_zero_ones": hrnp_burst16_zero_ones}
 
 
 # ------------------------------------------------------------------------------------------------
@@ -106,6 +136,8 @@ def lib():
     from okdmr.dmrlib.etsi.layer2.elements.lcss import LCSS
     from okdmr.dmrlib.hytera.pdu.hrnp import HRNP, HRNPOpcodes
     from okdmr.dmrlib.hytera.pdu.hdap import HDAP
+    from okdmr.dmrlib.hytera.pdu import text_message_protocol as TMP
+    from okdmr.dmrlib.hytera.pdu.radio_ip import RadioIP
     from okdmr.dmrlib.etsi.crc.crc8 import CRC8
     from okdmr.dmrlib.etsi.crc.crc9 import CRC9
     from okdmr.dmrlib.etsi.crc.crc16 import CRC16
@@ -819,6 +851,31 @@ class CrcPdu(CrossPart):
             return o, None, None
         return o, getattr(o, ok), (fields_of(o, drop) if fields else None)
 
+    def route_differs(self, bits: bitarray, o):
+        """the receiver's other route to the same indicator (coverage round: from_bits / convert of the rate blocks were never executed):
+        Burst.extract_data decodes a rate block UNTYPED (from_bits) and the block is then converted to the type the data header announced
+        (convert); that object must tell the same truth about the received bits as the typed decoder.  Returns a description or None."""
+        if self.kind not in self.L.rates:
+            return None
+        cls, types, n = self.L.rates[self.kind]
+        t = types.ConfirmedLastBlock if self.last else types.Confirmed
+        u = call(cls.from_bits, bitarray(bits))
+        v = u if is_err(u) else call(u.convert, t)
+        if is_err(o) or is_err(v):
+            return None if (is_err(o) and is_err(v)) else f"typed decode: {o if is_err(o) else 'object'}, from_bits().convert(): {v if is_err(v) else 'object'}"
+        a, b = fields_of(o, ()), fields_of(v, ())
+        if a != b:
+            d = {k: [a.get(k), b.get(k)] for k in set(a) | set(b) if a.get(k) != b.get(k)}
+            return f"from_bits(b).convert({t.name}) differs from from_bits_typed(b, {t.name}) in {json.dumps(d, default=str)[:300]}"
+        return None
+
+    def route_check(self, tag, bits: bitarray, o):
+        why = self.route_differs(bits, o)
+        self.ctx.count(f"{tag}:untyped-then-convert")
+        if why:
+            self.ctx.fail("route-differs", {"pdu": self.kind, "last": self.last, "route": barg(bits)},
+                          f"{tag}: the indicator / fields depend on the route by which the block was decoded: {why}", expected="the same object", actual=why)
+
     def width(self):
         return {"dh": 96, "pi": 96, "slc": 36, "r12": 96, "r34": 144, "r1": 192}[self.kind]
 
@@ -915,6 +972,8 @@ class CrcPdu(CrossPart):
             c = self.corr(r, q)
             if c:
                 pairs.append(c)
+            if self.kind in self.L.rates:
+                self.route_check(tag, r, q)
         if is_err(q):
             ctx.count(f"{tag}:decode-error")
             return "error"
@@ -966,6 +1025,8 @@ class CrcPdu(CrossPart):
                 continue
             if call(lambda: p.as_bits()) != word:
                 ctx.fail("selfcheck", {"pdu": kind, "last": self.last, "sent": sent}, f"a library-serialised {tag} PDU does not re-serialise to the same bits", expected=sent, actual=barg(call(lambda: p.as_bits())))
+            if kind in self.L.rates:
+                self.route_check(tag, word, p)
             # ---- corruption within the guaranteed class
             level = (2 if ctx.thorough() else 1) if i < exhaustive_first else (1 if ctx.thorough() and i < 3 * exhaustive_first else 0)
             for pat in self.patterns(ctx.rng, level):
@@ -1422,8 +1483,15 @@ HRNP_CORPUS = [
     "7e04000020100001001b43b502471808000700000000000000c403", "7E040000102000010014857A0247880100006203",
     "7E040000102000030019FDF9025284060000010A0003E95F03", "7E040000102000020019E41402528406000000E90300006A03",
     "7E04000010200004002767790980B1001400000001000000010A000835610068006F006A000203",
+    # library-serialised TMP private short data in HRNP DATA: with bit 2 of octet 9 inverted (36 -> 32) the shorter octet
+    # range satisfied the checksum before the length cross-check of HRNP.from_bytes (HRNP_LENGTH_WITNESS below)
+    "7e040000201000070024f4e90900ae0011000000010a0007d10a0007d2b6000000f8ff03",
     "7e04000020100000001c03f502c7100900040b010601050012012303", "7e04000020100000001602fb02c8b003000b0400a803",
 ]
+
+
+HRNP_LENGTH_WITNESS = ("7e040000201000070024f4e90900ae0011000000010a0007d10a0007d2b6000000f8ff03",
+                       "7e040000201000070020f4e90900ae0011000000010a0007d10a0007d2b6000000f8ff03")
 
 
 def hdap_stage_fails(L, d: bytes) -> bool:
@@ -1607,6 +1675,8 @@ def hrnp_cases(ctx, L):
         ctx.correspond("hrnp.checksum_correct", pairs)
     hrnp_special_cases(ctx, L, valid)
     hrnp_context_cases(ctx, L, valid)
+    hrnp_length_witness(ctx, L)
+    hrnp_burst_cases(ctx, L, valid)
 
 
 def hrnp_judge(ctx, L, b, f0, c, q, extra, how):
@@ -1709,12 +1779,16 @@ def hrnp_context_cases(ctx, L, valid):
                 ctx.count(f"hrnp:context:corrupted-{par}-length+trailing")
                 if bit % 3 == ctx.seed % 3 or t is comp:
                     pairs.append((f"hrnp.dec {hex_str(buf)} {int(hdap_stage_fails(L, buf))}", hrnp_out(L, buf, q)))
-                if in_len:
-                    # an inverted bit of the length field makes the parser read into (or stop before) the context:
-                    # another octet range is summed, which the ones' complement sum does not exclude (assumption
-                    # recorded; model and code are still compared)
-                    ctx.count("hrnp:context:length-field-bit(correspondence-only)")
+                if in_len and b[3] != L.HRNPOpcodes.DATA.value:
+                    # a packet without payload: an inverted bit of the length field makes the parser read into the
+                    # context, another octet range is summed, which the ones' complement sum does not exclude and no
+                    # inner length can contradict (assumption recorded; model and code are still compared)
+                    ctx.count("hrnp:context:length-field-bit-of-a-packet-without-payload(correspondence-only)")
                     continue
+                if in_len:
+                    # DATA packet: the announced length is cross-checked with the carried HDAP message (Lean
+                    # C04p.hrnp_single_bit_in_context): never accepted, whatever follows
+                    ctx.count("hrnp:context:length-field-bit-of-a-DATA-packet+trailing")
                 hrnp_judge(ctx, L, b, f0, buf, q, {"class": "embedded-in-larger-buffer", "bit": bit, "trailing": t.hex()}, f"one inverted bit (octet {bit // 8}) followed by octets {t.hex()[:16]} in the buffer")
     if not ctx.search_only and ctx.driver_ok:
         ctx.correspond("hrnp.in-context", pairs)
@@ -1861,6 +1935,89 @@ def ENTRY_POINTS():
     eps.append(H.EP("hrnp.build", hrnp_new, hrnp_args, kind="build", serialise=hrnp_ser, canon=hrnp_view, group="hrnp", draws=3))
     eps.append(H.EP("hrnp.from_bytes", L.HRNP.from_bytes, hrnp_wire, kind="parse", serialise=hrnp_ser, canon=hrnp_view, group="hrnp", draws=2))
     return eps
+
+
+def hrnp_length_witness(ctx, L):
+    """repaired defect: one inverted bit of the packet-length field selected an octet range whose checksum matched"""
+    sent, bad = (bytes.fromhex(h) for h in HRNP_LENGTH_WITNESS)
+    pairs = []
+    o = call(L.HRNP.from_bytes, sent)
+    ctx.case(("corpus", "hrnp-length", "sent"))
+    if is_err(o) or o.checksum_correct is not True:
+        ctx.fail("selfcheck", {"pdu": "hrnp", "sent": sent.hex()}, "the library-serialised packet of the HRNP length witness does not parse back with checksum_correct", expected=True, actual=str(o if is_err(o) else o.checksum_correct))
+        return
+    f0 = fields_of(o, ("checksum", "checksum_correct"))
+    for t in (b"", b"\x7e", b"\x7e\x04", sent):
+        buf = bad + t
+        q = call(L.HRNP.from_bytes, buf)
+        ctx.case(("corpus", "hrnp-length", t))
+        ctx.count("hrnp:corpus:length-witness")
+        pairs.append((f"hrnp.dec {hex_str(buf)} {int(hdap_stage_fails(L, buf))}", hrnp_out(L, buf, q)))
+        hrnp_judge(ctx, L, sent, f0, buf, q, {"bit": 77, "class": "length-octet", "trailing": t.hex()}, "one inverted bit in the packet-length field (36 -> 32; historical witness)")
+    if not ctx.search_only and ctx.driver_ok:
+        ctx.correspond("hrnp.length-witness", pairs)
+
+
+def hrnp_burst_packets(L, valid):
+    """packets for the burst class: the valid ones and library-serialised packets that contain 0x0000 / 0xFFFF words and
+    all-zero / all-one stretches at odd bit offsets (so that the undetectable class of the ones' complement sum is met)"""
+    out = list(valid)
+    T = L.TMP
+    for sd in (bytes(8), b"\xff" * 8, b"\x12\x00\x00\x34\xff\xff\x56", b"\x0f\xff\xf0\xf0\x00\x0f\x55", b"\x00\x00\xff\xff\x00\xff\x00"):
+        for pn in (0, 0xFFFF, 0x1234):
+            t = call(T.TextMessageProtocol, opcode=T.TMPService.PrivateShortData, request_id=0xFFFF0000, destination_ip=L.RadioIP(0), source_ip=L.RadioIP(0xFFFFFF), short_data=sd)
+            h = call(L.HRNP, data=t, opcode=L.HRNPOpcodes.DATA, packet_number=pn)
+            b = call(lambda: h.as_bytes())
+            if is_err(b):
+                continue
+            o = call(L.HRNP.from_bytes, b)
+            if not is_err(o) and o.checksum_correct is True:
+                out.append((b, fields_of(o, ("checksum", "checksum_correct"))))
+    for pn in (0, 0xFFFF):
+        h = call(L.HRNP, opcode=L.HRNPOpcodes.CLOSE, packet_number=pn, source=0, destination=0xFF)
+        b = call(lambda: h.as_bytes())
+        if not is_err(b):
+            out.append((b, None))
+    return out
+
+
+def hrnp_burst_cases(ctx, L, valid):
+    """class "burst no longer than the check field" for HRNP: every window [pos, pos + ln), ln = 1..16, at EVERY bit offset of the
+    packet, the solid burst (all bits of the window inverted) and bursts with a random interior.  Lean C04p.hrnp_burst_iff:
+    the ones' complement sum detects every burst of at most 15 bits and every 16-bit burst except a window inverted from
+    all-zero to all-one or back (known finding hrnp-burst16-zero-ones; its matcher accepts exactly that class, so any other
+    accepted burst is an unlisted violation)."""
+    rng = ctx.rng
+    pairs = []
+    packets = hrnp_burst_packets(L, valid)
+    full = ctx.thorough()
+    head = 6 * scale(ctx)
+    for n, (b, f0) in enumerate(packets):
+        nbits = len(b) * 8
+        dense = full or n < head or n >= len(valid)
+        for ln in range(1, 17):
+            if not dense and ln not in (1, 8, 15, 16) and (ln + n) % 4 != ctx.seed % 4:
+                continue
+            for pos in range(0, nbits - ln + 1):
+                pats = [tuple(range(pos, pos + ln))]
+                if ln > 2 and (dense or pos % 3 == ctx.seed % 3):
+                    pats.append(tuple(sorted({pos, pos + ln - 1} | {i for i in range(pos + 1, pos + ln - 1) if rng.random() < 0.5})))
+                for pat in pats:
+                    c = bytearray(b)
+                    for i in pat:
+                        c[i // 8] ^= 0x80 >> (i % 8)
+                    c = bytes(c)
+                    q = call(L.HRNP.from_bytes, c)
+                    ctx.case(("hrnp", "burst", b, pat))
+                    ctx.count(f"hrnp:burst:length-{ln:02d}")
+                    if (pos + ln + n) % 7 == ctx.seed % 7 or (not is_err(q) and q.checksum_correct):
+                        pairs.append((f"hrnp.dec {hex_str(c)} {int(hdap_stage_fails(L, c))}", hrnp_out(L, c, q)))
+                    if not is_err(q) and q.checksum_correct:
+                        ctx.count("hrnp:burst:ACCEPTED")
+                    hrnp_judge(ctx, L, b, f0, c, q, {"burst": {"pos": pos, "len": ln, "inverted": len(pat)}, "class": "burst<=16"},
+                               f"a burst of {ln} bits from bit {pos} ({len(pat)} inverted)")
+    if not ctx.search_only and ctx.driver_ok:
+        ctx.correspond("hrnp.bursts", pairs)
 
 
 def run(ctx):
@@ -2265,6 +2422,14 @@ def replay(obj):
         lines = [f"{kind}.dec {inp['received']}"]
     elif kind in ("dh", "pi", "slc", "r12", "r34", "r1"):
         pdu = CrcPdu(_Null(), L, kind, bool(inp.get("last")))
+        if "route" in inp:
+            o, ind, _ = pdu.parse(bitarray(inp["route"]))
+            why = pdu.route_differs(bitarray(inp["route"]), o)
+            print(f"typed decode of {inp['route']}: indicator {ind if not is_err(o) else o}; untyped decode then convert: {why or 'the same object'}")
+            still = int(bool(why))
+            c = pdu.corr(bitarray(inp["route"]), o)
+            if c:
+                lines = [c[0]]
         if "sent" in inp and inp["sent"] != "-":
             p, ind, f0 = pdu.parse(bitarray(inp["sent"]))
             print(f"sent     {inp['sent']}: indicator {ind if not is_err(p) else p}")
